@@ -420,7 +420,15 @@ Fixpoint drained_quiescent (m : mstate) (b : book) (ds : list dstep) : bool :=
       && drained_quiescent (fst mo) b' ds'
   end.
 
+(* executable form of the stated assumptions on a script (Proofs/C09Cases.v: c09_validb c = true -> c09_valid c):
+   no step outside the assumptions, a DWrite carries a write request, no repair commit answered with a bare abort *)
+Definition dstep_wfb (d : dstep) : bool :=
+  negb (step_outside d) && match d with DRetry EnvAbort _ | DRetryFinish EnvAbort => false | DWrite op _ _ _ => op_is_write op | _ => true end.
+Definition c09_validb (c : c09_case) : bool := forallb dstep_wfb (c_script c).
+
+(* a script with a step_outside step is evaluated for correspondence only (the oracle reports nothing on it, by
+   definition); every other script must be valid — so a case that passes the check is covered by C09_oracle_sound *)
 Definition c09_check (c : c09_case) : bool :=
   let '(os, evs) := model_obs c in
   list_eqb obs_eqb os (c_obs c) && list_eqb evobs_eqb evs (c_events c)
-  && (existsb step_outside (c_script c) || drained_quiescent minit book0 (c_script c)).
+  && (existsb step_outside (c_script c) || (c09_validb c && drained_quiescent minit book0 (c_script c))).
